@@ -1183,6 +1183,23 @@ def k14_walk(ctx, pid: str):
 
     entity_root = p.get_class("moclo.core._structured.StructuredRecord")
     entity_vars: Set[str] = set()  # loop-carried names that hold a module (found by a first evaluation, see below)
+    # (class, attribute) of a state object that holds the list of the modules linked so far (found by evaluating the first
+    # round as it is, see `probe` below).  When the walk keeps no overhang of its own and reads the current one off the last
+    # link (`links[-1].overhang_end()`, the vector's overhang while there is none), the current overhang of an arbitrary
+    # round *is* the downstream overhang of "the module linked last": that module's end overhang is kappa by definition.
+    entity_list_attrs: Set[Tuple[str, str]] = set()
+    derived = {"on": False}
+
+    def _wrap_end(h):
+        def hook(I, f, args, kwargs):
+            res = h(I, f, args, kwargs)
+            if derived["on"] and isinstance(res, Term) and res == Term("end", Term("Mlast")):
+                return KAPPA
+            return res
+        return hook
+
+    for k_ in [k_ for k_, h_ in hooks.items() if callable(h_) and k_ not in ("term_type", "map_value")]:
+        hooks[k_] = _wrap_end(hooks[k_])
 
     def is_carrier(v) -> bool:
         return isinstance(v, AObj) and isinstance(v.cls, ClassInfo) and v.cls is not mgr and not p.is_subclass(v.cls, entity_root) \
@@ -1192,6 +1209,20 @@ def k14_walk(ctx, pid: str):
     def havoc(fr: Frame):
         I = fr.I
         seen_carriers: Set[int] = set()
+        if entity_list_attrs:
+            # does the walk keep the current overhang in a variable / attribute of its own?
+            explicit = False
+            for f in (I.frames or [fr]):
+                names = assigned_by.get(f.fi.qualname if f.fi is not None else "", set())
+                for nm in names:
+                    v = f.env.get(nm) if nm in f.env else None
+                    if isinstance(v, Term) or (isinstance(v, AObj) and isinstance(v.cls, ClassInfo) and not is_carrier(v)
+                                               and isinstance(p.class_attr_def(v.cls, "__eq__")[1], FuncInfo)):
+                        explicit = True
+                for v in f.env.values():
+                    if is_carrier(v) and any(isinstance(v.attrs.get(an), Term) for an in _walk_state_attrs(p, v.cls)):
+                        explicit = True
+            derived["on"] = not explicit
         for f in (I.frames or [fr]):
             names = assigned_by.get(f.fi.qualname if f.fi is not None else "", set())
             from .absint import ChainEnv
@@ -1235,6 +1266,16 @@ def k14_walk(ctx, pid: str):
                         elif isinstance(av, ARec):
                             I.path.cons.add(P_LEN)
                             v.attrs[an] = ARec(av.circular, [Piece("P", ZERO, P_LEN)], Term("P"), deriv=("accumulator",))
+                        elif isinstance(av, AList) and not av.generic and (v.cls.qualname, an) in entity_list_attrs:
+                            # the modules linked so far: none before the first round, afterwards some modules the last of
+                            # which is "the module linked last"
+                            if I.path.choose("none-so-far-list %s.%s" % (v.cls.name, an)):
+                                v.attrs[an] = AList([], I.loop_depth, origin="links:%s" % an)
+                            else:
+                                lst_ = AList([_entity(mod_cls, "Mlast")], I.loop_depth, origin="links:%s" % an)
+                                lst_.generic, lst_.generic_from, lst_.min_len = True, 0, 1
+                                lst_.unknown_head = True  # (what was linked before the last link is not represented)
+                                v.attrs[an] = lst_
                         elif isinstance(av, AList) and not av.generic and all(isinstance(x, ARec) for x in av.items):
                             # the fragments collected so far, to be joined at the end: known through their concatenation
                             from .absint import AFragList
@@ -1272,6 +1313,10 @@ def k14_walk(ctx, pid: str):
     def post(I, o):
         name = fi.qualname
         out = []
+        # the overhang this round starts from: any overhang (kappa) -- or, when it is read off the last link and nothing is
+        # linked yet, the vector's downstream overhang (the first round, evaluated as such)
+        first_round = derived["on"] and any(t.startswith("none-so-far-list ") and v for t, v in o.path.choices)
+        CUR = END_V if first_round else KAPPA
         entry = [e for e in o.path.effects if e[0] == "loop-entry"]
         if len(entry) != 1:
             return [("K14.entry", name, False, "the walk loop is not entered exactly once")]
@@ -1305,6 +1350,10 @@ def k14_walk(ctx, pid: str):
                             av_ = ARec(False, pieces_, Term("fragments"), deriv=("fragments",))
                         if isinstance(av_, (Term, ARec)):
                             out_["%s.%s" % (k_, an_)] = av_
+                        elif derived["on"] and (v_.cls.qualname, an_) in entity_list_attrs and isinstance(av_, AList) and av_.items \
+                                and isinstance(av_.items[-1], AObj):
+                            # the current overhang is read off the last link (see above): what the next round starts from
+                            out_["%s.%s[-1].end" % (k_, an_)] = Term("end", Term(av_.items[-1].name))
             return out_
 
         env0 = plain(entry[0][1])
@@ -1327,23 +1376,26 @@ def k14_walk(ctx, pid: str):
                            "completed rounds as the bound allows, the current overhang need not be the vector's upstream overhang): "
                            "the product is then returned for an incomplete chain")]
         cmps = [(strip_norm(e[1]), strip_norm(e[2])) for e in o.path.effects if e[0] == "compare"]
-        stop = [c for c in cmps if {repr(c[0]), repr(c[1])} == {repr(KAPPA), repr(START_V)}]
-        out.append(("K14.stop", name, len(stop) >= 1 and len(cmps) == len(stop),
+        stop = [c for c in cmps if {repr(c[0]), repr(c[1])} == {repr(CUR), repr(START_V)}]
+        # (the first round of a walk that reads its overhang off the last link compares the vector's two overhangs with each
+        # other, which the constructor's own check has already done: nothing new is asked on that path; the arbitrary round
+        # -- the other branch -- shows the comparison)
+        out.append(("K14.stop", name, (len(stop) >= 1 or first_round) and len(cmps) == len(stop),
                     "the loop must stop exactly when the current overhang equals the vector's upstream overhang: comparisons %r" % (cmps,)))
         cond = dict(o.path.choices).get("loop-cond") and not dict(o.path.choices).get("loop-break")
         pops = [e for e in o.path.effects if e[0] in ("map-pop", "map-getitem")]
         if cond:
             # one inductive step
-            asked = [e for e in o.path.effects if e[0] == "map-haskey" and strip_norm(e[2]) == KAPPA]
+            asked = [e for e in o.path.effects if e[0] == "map-haskey" and strip_norm(e[2]) == CUR]
             absent = [v for t, v in o.path.choices if t.startswith("haskey ") and v is False]
             if not pops and asked and absent:
                 # the step tests `kappa in map` first and found nothing filed under the current overhang
                 ok = o.kind == "raise" and _is_exc(p, o.value, "moclo.errors.MissingModule")
-                okarg = ok and o.value.args and strip_norm(o.value.args[0]) == KAPPA
+                okarg = ok and o.value.args and strip_norm(o.value.args[0]) == CUR
                 out.append(("K14.missing", name, bool(ok and okarg),
                             "a missing module must raise MissingModule naming the overhang at which the chain stalls: got %r" % (o,)))
                 return out
-            if not pops or any(strip_norm(e[2]) != KAPPA for e in pops):
+            if not pops or any(strip_norm(e[2]) != CUR for e in pops):
                 lookups = [e for e in o.path.effects if e[0] in ("map-get", "map-pop")]
                 return out + [("K14.step-consume", name, False,
                                "each step must remove the module filed under the current overhang from the map (consuming lookup): %r" % (lookups,))]
@@ -1353,7 +1405,7 @@ def k14_walk(ctx, pid: str):
             working["step"] |= pop_bases
             if not hit:
                 ok = o.kind == "raise" and _is_exc(p, o.value, "moclo.errors.MissingModule")
-                okarg = ok and o.value.args and strip_norm(o.value.args[0]) == KAPPA
+                okarg = ok and o.value.args and strip_norm(o.value.args[0]) == CUR
                 out.append(("K14.missing", name, bool(ok and okarg),
                             "a missing module must raise MissingModule naming the overhang at which the chain stalls: got %r" % (o,)))
                 return out
@@ -1368,7 +1420,7 @@ def k14_walk(ctx, pid: str):
             # (a variable that still holds the overhang the step started from matters when the walk goes on from it: the
             # names the loop's own test reads; a throw-away target of an unpacking that happens to keep it does not)
             carried = {x.id for x in ast.walk(loop.test) if isinstance(x, ast.Name)} if isinstance(loop, ast.While) else None
-            stale = [v for k_, v in env.items() if isinstance(v, Term) and v == KAPPA and (carried is None or k_.lstrip("^").split(".")[0] in carried)]
+            stale = [v for k_, v in env.items() if isinstance(v, Term) and v == CUR and (carried is None or k_.lstrip("^").split(".")[0] in carried)]
             out.append(("K14.step-next", name, bool(nxt) and not stale,
                         "the next overhang must be the consumed module's downstream overhang: state %r"
                         % ({k_: v for k_, v in env.items() if isinstance(v, Term)},)))
@@ -1380,7 +1432,7 @@ def k14_walk(ctx, pid: str):
                     for c_ in cands_:
                         if isinstance(c_, AMap) and c_.base == "copy-of:" + I.the_map.base:
                             wmap = c_
-            okmap = [repr(strip_norm(x)) for x in wmap.removes] == [repr(KAPPA)] and not wmap.adds and len(pop_bases) == 1 \
+            okmap = [repr(strip_norm(x)) for x in wmap.removes] == [repr(CUR)] and not wmap.adds and len(pop_bases) == 1 \
                 and (wmap is I.the_map or (not I.the_map.removes and not I.the_map.adds))
             out.append(("K14.step-consume", name, okmap, "the consumed entry (and only it) must leave the map: %r" % (wmap,)))
             reads = {(e[1], e[2]) for e in o.path.effects if e[0] == "read" and e[1].startswith("M[")}
@@ -1422,7 +1474,38 @@ def k14_walk(ctx, pid: str):
                     "the product must be the circular record of the accumulator and the vector fragment, once each: got %r" % (v,)))
         return out
 
-    outs = run_paths(ctx, fi, make_args, [], hooks=hooks, step_loop=loop, post=post)
+    def probe():
+        """the first round evaluated as it is (no arbitrary state): which attributes of the state objects come out of it
+        as lists of modules"""
+        learned: Set[Tuple[str, str]] = set()
+
+        def post_probe(I, o):
+            if o.kind == "step":
+                for v_ in o.env.values():
+                    if is_carrier(v_):
+                        for an_, av_ in v_.attrs.items():
+                            if isinstance(av_, AList) and not av_.generic and av_.items and an_ in _walk_state_attrs(p, v_.cls) \
+                                    and all(isinstance(x, AObj) and isinstance(x.cls, ClassInfo) and p.is_subclass(x.cls, entity_root) for x in av_.items):
+                                learned.add((v_.cls.qualname, an_))
+            return []
+
+        h2 = dict(hooks)
+        h2["havoc"] = lambda fr: None
+        try:
+            run_paths(ctx, fi, make_args, [], hooks=h2, step_loop=loop, post=post_probe)
+        except AnalysisError:
+            pass
+        return learned
+
+    try:
+        outs = run_paths(ctx, fi, make_args, [], hooks=hooks, step_loop=loop, post=post)
+    except AnalysisError:
+        # a state object may keep the modules linked so far in a list that is empty when the walk begins: what an empty
+        # list will hold is not known from the entry state -- learn it from the first round, then evaluate again
+        entity_list_attrs.update(probe())
+        if not entity_list_attrs:
+            raise
+        outs = run_paths(ctx, fi, make_args, [], hooks=hooks, step_loop=loop, post=post)
     # a name that is None when the walk begins and holds the module consumed when a round ends ("previous", "last link"):
     # on an arbitrary round it is None or some module -- evaluated again with that, so that what is done with it (an error
     # message naming the module the chain stalls after) is run on a module, not on an opaque value
